@@ -417,6 +417,12 @@ func (st *ccState) provenStretches(a *ccCall) []stretch {
 		if k+1 < len(tries) && tries[k+1].tx.t < s.toT {
 			s.toT = tries[k+1].tx.t
 		}
+		// ... and a client that anchors its deadlines at the start of the call (one of the
+		// readings C12 accepts) ends try k at invT + T·(2^(k+1)-1), which is earlier than
+		// "transmission + T·2^k" whenever a transmission was late (a stalled task)
+		if anch := a.invT + T*time.Duration((int64(1)<<uint(k+1))-1); anch < s.toT {
+			s.toT = anch
+		}
 		// anything that may end the try earlier
 		if a.cancelSeq != 0 && a.cancelSeq < s.toSeq {
 			s.toSeq = a.cancelSeq
